@@ -28,10 +28,18 @@ pub fn attrs_json(attrs: &J) -> R<J> {
     Ok(J::Object(m))
 }
 
-/// abstract schema -> cedar JSON schema (single, empty namespace)
+/// abstract schema -> cedar JSON schema.  An entity type named `A::B::T` is declared as `T` in namespace `A::B`
+/// (references keep the full name); everything else, actions included, lives in the empty namespace.
 pub fn schema_json(sc: &J) -> R<J> {
     let mut ets = Map::new();
+    let mut other: std::collections::BTreeMap<String, Map<String, J>> = Default::default();
     for (name, et) in as_obj(&sc["ets"])?.iter() {
+        let (ns, base) = match name.rfind("::") {
+            Some(i) => (name[..i].to_string(), name[i + 2..].to_string()),
+            None => (String::new(), name.clone()),
+        };
+        let ets: &mut Map<String, J> = if ns.is_empty() { &mut ets } else { other.entry(ns).or_default() };
+        let name = &base;
         let en = et["enum"].as_array().ok_or("enum")?;
         if !en.is_empty() {
             ets.insert(name.clone(), json!({"enum": en}));
@@ -59,7 +67,12 @@ pub fn schema_json(sc: &J) -> R<J> {
         }
         acts.insert(id.clone(), o);
     }
-    Ok(json!({"": {"entityTypes": ets, "actions": acts}}))
+    let mut doc = Map::new();
+    doc.insert(String::new(), json!({"entityTypes": ets, "actions": acts}));
+    for (ns, e) in other {
+        doc.insert(ns, json!({"entityTypes": e, "actions": {}}));
+    }
+    Ok(J::Object(doc))
 }
 
 pub fn schema_of(sc: &J) -> R<cedar_policy::Schema> {
